@@ -597,3 +597,55 @@ pub fn super_search() -> Option<(Vec<u8>, String)> {
     }
     None
 }
+
+// ------------------------------------------------------------------------------------------------ ord (C12)
+fn hash64<T: std::hash::Hash>(x: &T) -> u64 { use std::hash::Hasher; let mut h = std::collections::hash_map::DefaultHasher::new(); x.hash(&mut h); h.finish() }
+fn ord_pool() -> Vec<Locale> {
+    let mut out: Vec<Locale> = vec![];
+    let ids = ["und", "en", "en-US", "en-Latn", "en-Latn-US", "fr", "en-macos", "en-US-macos-valencia", "und-US", "und-Latn"];
+    let us = ["", "-u-foo", "-u-bar-foo", "-u-ca-buddhist", "-u-ca-islamic-civil", "-u-ca-islamic-nu-civil", "-u-ca-islamic-civil-nu-latn", "-u-ca-islamic-nu-civil-latn",
+              "-u-ca", "-u-ca-nu", "-u-foo-ca-buddhist", "-u-nu-latn"];
+    let ts = ["", "-t-es", "-t-es-ar", "-t-h0-hybrid", "-t-es-h0-hybrid", "-t-h0-hybrid-m0-names", "-t-h0-hybrid-names-m0", "-t-h0"];
+    let xs = ["", "-x-a", "-x-a-b", "-x-b"];
+    for i in ids { for t in ts { for u in us { for x in xs {
+        if let Ok(l) = format!("{}{}{}{}", i, t, u, x).parse::<Locale>() { out.push(l); }
+    }}}}
+    out
+}
+pub fn ord_pair(a: &Locale, b: &Locale) -> Option<String> {
+    use std::cmp::Ordering::*;
+    let (eq, c, sa, sb) = (a == b, a.cmp(b), a.to_string(), b.to_string());
+    if eq != (sa == sb) { return Some(format!("\"{}\" == \"{}\" is {} but their canonical strings are {}", sa, sb, eq, if sa == sb { "equal" } else { "different" })); }
+    if (c == Equal) != eq { return Some(format!("\"{}\".cmp(\"{}\") = {:?} but == is {}", sa, sb, c, eq)); }
+    if b.cmp(a) != c.reverse() { return Some(format!("cmp is not antisymmetric on \"{}\" / \"{}\"", sa, sb)); }
+    if a.partial_cmp(b) != Some(c) { return Some(format!("partial_cmp disagrees with cmp on \"{}\" / \"{}\"", sa, sb)); }
+    if eq && hash64(a) != hash64(b) { return Some(format!("equal values \"{}\" hash differently", sa)); }
+    // field by field: the identifier decides first
+    let ic = a.id.cmp(&b.id);
+    if ic != Equal && c != ic { return Some(format!("\"{}\" vs \"{}\": the ordering does not follow the identifiers' ordering", sa, sb)); }
+    if (a.id == b.id) != (a.id.to_string() == b.id.to_string()) { return Some(format!("identifier == disagrees with canonical strings: \"{}\" / \"{}\"", a.id, b.id)); }
+    None
+}
+/// bound: all ordered pairs of a pool of up to ~3800 locales (10 identifiers x 8 -t- x 12 -u- x 4 -x- shapes, incl. keyword values split
+/// differently across keys) are too many; the pool is thinned to every 3rd element (~1280 values, 1.6 M pairs) plus all pairs within one identifier
+pub fn ord_search() -> Option<(Vec<u8>, String)> {
+    let pool = ord_pool();
+    let thin: Vec<&Locale> = pool.iter().step_by(3).collect();
+    for a in &thin { for b in &thin { if let Some(d) = ord_pair(a, b) { return Some((format!("{}\n{}", a, b).into_bytes(), d)); } } }
+    for a in pool.iter().filter(|l| l.id.to_string() == "en") { for b in pool.iter().filter(|l| l.id.to_string() == "en") {
+        if let Some(d) = ord_pair(a, b) { return Some((format!("{}\n{}", a, b).into_bytes(), d)); }
+    } }
+    // transitivity on a sample of triples
+    let small: Vec<&Locale> = pool.iter().step_by(37).collect();
+    for a in &small { for b in &small { for c in &small {
+        if a.cmp(b) != std::cmp::Ordering::Greater && b.cmp(c) != std::cmp::Ordering::Greater && a.cmp(c) == std::cmp::Ordering::Greater {
+            return Some((format!("{}\n{}", a, c).into_bytes(), format!("cmp is not transitive: \"{}\" <= \"{}\" <= \"{}\" but the first is greater than the last", a, b, c)));
+        }
+    } } }
+    None
+}
+pub fn ord_replay(token: &[u8]) -> Option<String> {
+    let t = String::from_utf8_lossy(token).to_string();
+    let (a, b) = t.split_once('\n')?;
+    ord_pair(&a.parse().ok()?, &b.parse().ok()?)
+}
